@@ -225,10 +225,12 @@ class RecipeSourceBlock(NamedTuple):
         parsing) as an argument.
         """
         # NB: marko computes 'pos' on the source with "\r\n" line endings
-        # normalised to "\n".
+        # normalised to "\n". Any remaining "\r" is a line ending of its own
+        # (e.g. the first in "\r\r\n") so must not be paired up with a
+        # following "\n".
+        normalised_source = markdown_source.replace("\r\n", "\n").replace("\r", "\n")
         newlines = "\n" * (
-            offset_to_line_and_column(markdown_source.replace("\r\n", "\n"), self.pos)[0]
-            - 1
+            offset_to_line_and_column(normalised_source, self.pos)[0] - 1
         )
 
         # NB: the 'pos' is the offset of the fence, not the first line of
@@ -236,7 +238,9 @@ class RecipeSourceBlock(NamedTuple):
         if self.in_fenced_block:
             newlines += "\n"
 
-        return newlines + self.source
+        # Likewise within the recipe source itself (where "\r" is only ever a
+        # line ending)
+        return newlines + self.source.replace("\r", "\n")
 
 
 @dataclass
